@@ -10,8 +10,7 @@
 /// one input argument as the statement sees it: its bytes and whether it ended an input line
 pub struct Tk { pub bytes: Seq<u8>, pub hard: bool }
 pub open spec fn arg_is(a: Argument, t: Tk) -> bool {
-    &&& (valid_utf8(t.bytes) ==> osv(a.arg) == t.bytes)
-    &&& osv(a.arg) == lossy(t.bytes)
+    &&& osv(a.arg) == t.bytes   // every byte of the argument, unchanged
     &&& (a.kind == ArgumentKind::HardTerminated <==> t.hard)
     &&& (a.kind == ArgumentKind::SoftTerminated <==> !t.hard)
 }
